@@ -262,14 +262,18 @@ func propose(r *sim.Rand, ids *idAlloc, av []avail, x avail, o *genOpts) []sim.S
 		n := sim.NElems(x.Shape)
 		st.Op = "reshape"
 		st.I = factorShape(r, n, o.MaxRank)
+		if r.Bool(0.08) {
+			st.I = cpI(x.Shape) // degenerate form: the tensor's own shape
+		}
 	case "broadcast":
 		s := cpI(x.Shape)
+		own := r.Bool(0.08) // degenerate form: the tensor's own shape
 		for i := range s {
-			if s[i] == 1 && r.Bool(0.6) {
+			if !own && s[i] == 1 && r.Bool(0.6) {
 				s[i] = r.Range(2, 3)
 			}
 		}
-		for len(s) < o.MaxRank && r.Bool(0.4) {
+		for !own && len(s) < o.MaxRank && r.Bool(0.4) {
 			s = append([]int{r.Range(1, 3)}, s...)
 		}
 		if sim.NElems(s) > o.MaxElems {
@@ -283,9 +287,14 @@ func propose(r *sim.Rand, ids *idAlloc, av []avail, x avail, o *genOpts) []sim.S
 		}
 		st.Op = "slice"
 		nidx := r.Range(0, rank)
+		whole := r.Bool(0.06) // degenerate form: everything, by explicit full ranges or fetch-all
 		for i := 0; i < nidx; i++ {
 			d := x.Shape[i]
-			if r.Bool(0.3) {
+			if whole && r.Bool(0.5) {
+				st.R = append(st.R, [2]int{0, d})
+				continue
+			}
+			if whole || r.Bool(0.3) {
 				st.R = append(st.R, [2]int{0, 0})
 				continue
 			}
@@ -344,6 +353,9 @@ func propose(r *sim.Rand, ids *idAlloc, av []avail, x avail, o *genOpts) []sim.S
 		n := r.Range(2, 3)
 		if r.Bool(0.1) {
 			n = r.Range(4, 9)
+		}
+		if r.Bool(0.05) {
+			n = 1 // degenerate form: a list of one
 		}
 		st.Op = "concat"
 		st.I = []int{dim}
